@@ -97,7 +97,7 @@ structure EpFlags where
 
 def parseFlags (toks : List String) : Option EpFlags :=
   toks.foldlM (fun (f : EpFlags) (t : String) =>
-    if t == "L" then some f
+    if t == "L" || t.startsWith "R" || t.startsWith "G" then some f  -- logger, read chunking, garbage override: no effect on the answer
     else if t.startsWith "A" then (t.drop 1).toString.toNat?.map (fun n => { f with adm := n })
     else if t.startsWith "N" then (hexToNat? (t.drop 1).toString).map (fun n => { f with magic2 := some n })
     else none) {}
@@ -222,8 +222,8 @@ def runPk (secret : List UInt8) (magic : Nat) (ini : Bool) (pkts : List (List Na
   for pk in pkts do
     match pk with
     | [len, seed, ign, aadlen] =>
-      if ign ≥ 2 then
-        let e := encodePacket CP sd (UInt8.ofNat ign) (fill seed len) (fill (seed + 1) aadlen)
+      if ign ≥ 256 then
+        let e := encodePacket CP sd (UInt8.ofNat (ign - 256)) (fill seed len) (fill (seed + 1) aadlen)
         sd := e.2; wire := e.1 :: wire
       else
       match sendPacket CP sd (fill seed len) (fill (seed + 1) aadlen) (ign == 1) with
